@@ -13,7 +13,11 @@ from .interp import (Ctx, Interp, Frame, Gap, PathEnd, ReturnEx, ThrowEx, Loc, O
 
 
 class LoopSpec:
-    def __init__(self, inv=None, frame=None, unroll=None, var=None, after_havoc=None, unwind_assert=False):
+    def __init__(self, inv=None, frame=None, unroll=None, var=None, after_havoc=None, unwind_assert=False, match=None):
+        """match: text that the loop's header (from `for`/`while` up to its body) must contain; loops are keyed by their
+        ordinal in source order, and with `match` a loop that moved (statements reordered, a loop added before it) is
+        re-associated with the invariant written for it instead of being checked against a neighbour's"""
+        self.match = match
         self.unwind_assert = unwind_assert
         self._inv = inv
         self._frame = frame
@@ -160,10 +164,38 @@ class Kernel:
     bounded_fallback = None
     bounded_mode = None
 
+    def loop_header(self, node):
+        """source text of a loop statement up to its body"""
+        try:
+            r = node.get("range", {})
+            b = r.get("begin", {})
+            b = b.get("expansionLoc", b)
+            body = [c for c in node.get("inner", []) if isinstance(c, dict) and c.get("kind")][-1]
+            e = body.get("range", {}).get("begin", {})
+            e = e.get("expansionLoc", e)
+            fb = self.fn.get("range", {}).get("begin", {})
+            f = b.get("file") or fb.get("expansionLoc", fb).get("file") or self.fn.get("_file")
+            data = open(f, "rb").read()
+            return data[b["offset"]: e["offset"]].decode("utf-8", "replace")
+        except Exception:
+            return None
+
     def loop_spec(self, ordinal, node):
         if self.bounded_mode is not None:
             return LoopSpec(unroll=self.bounded_mode)
-        return self.loops.get(ordinal)
+        loops = self.loops
+        spec = loops.get(ordinal)
+        if any(getattr(sp, "match", None) for sp in loops.values()):
+            hdr = self.loop_header(node)
+            if hdr is None:
+                raise Gap("loop #%s: cannot read the loop header to match it with its invariant" % ordinal)
+            if spec is None or not spec.match or spec.match not in hdr:
+                cands = [sp for sp in loops.values() if getattr(sp, "match", None) and sp.match in hdr]
+                if len(cands) != 1:
+                    raise Gap("loop #%s at line %s (%s) is not a loop this contract has an invariant for" % (
+                        ordinal, extract.line_of(node), " ".join(hdr.split())[:80]))
+                spec = cands[0]
+        return spec
 
     def bound_sizes(self, I, n):
         """extra preconditions for bounded mode (sizes <= n); override per kernel"""
